@@ -282,13 +282,54 @@ func spec_cand(l *LALR1, tr Transistor, a *Action, sy int) bool {
 //@ order_only
 //@ loop 0: order_assumed the relation list is used as a set of pairs by Digraph
 
-//@ func (*LALR1).CalcLookbacks
-//@ props C14
-//@ order_only
-//@ loop 1: order_assumed the relation list is used as a set of pairs by Digraph
-
 // each row cell is written once, at its own index
 //@ func (*LALR1).GenTable
 //@ props C14
 //@ order_only
 //@ loop 4: order_independent
+
+// ---------------------------------------------------------------------------------------------
+// C03 / C02: the DeRemer-Pennello relations over the transition list.
+
+// spec_step(l, q, X): the state reached from q on symbol X, -1 if there is no such transition.
+// spec_walk(l, q, r, k): the state reached from q over the first k right-hand-side symbols of rule r, -1 if undefined.
+func spec_step(l *LALR1, q int, x int) int       { panic("spec") }
+func spec_walk(l *LALR1, q int, r int, k int) int { panic("spec") }
+
+//@ axiom STEP: forall l *LALR1, q, x, i int :: 0 <= i && i < len(l.trans) && l.trans[i].q == q && l.trans[i].sym_or_rule&CheckMask == 0 && int(l.trans[i].sym_or_rule) == x ==> spec_step(l, q, x) == l.trans[i].to
+//@ axiom STEPNONE: forall l *LALR1, q, x int :: (forall i int :: 0 <= i && i < len(l.trans) ==> !(l.trans[i].q == q && int(l.trans[i].sym_or_rule) == x)) ==> spec_step(l, q, x) == -1
+//@ axiom WALK0: forall l *LALR1, q, r int :: spec_walk(l, q, r, 0) == q
+//@ axiom WALKS: forall l *LALR1, q, r, k int :: 0 <= k && k < len(l.G.ProductoinRules[r].RighPart) ==>
+//@     spec_walk(l, q, r, k+1) == ite(spec_walk(l, q, r, k) < 0, -1, spec_step(l, spec_walk(l, q, r, k), int(l.G.ProductoinRules[r].RighPart[k].ID)))
+
+//@ def wfTrans(l *LALR1) = l != nil && l.G != nil &&
+//@     (forall i int :: 0 <= i && i < len(l.G.Symbols) ==> l.G.Symbols[i] != nil) &&
+//@     (forall i int :: 0 <= i && i < len(l.G.ProductoinRules) ==> l.G.ProductoinRules[i] != nil && l.G.ProductoinRules[i].LeftPart != nil &&
+//@         (forall k int :: 0 <= k && k < len(l.G.ProductoinRules[i].RighPart) ==> l.G.ProductoinRules[i].RighPart[k] != nil)) &&
+//@     (forall i int :: 0 <= i && i < len(l.trans) ==> l.trans[i].Index == i && 0 <= l.trans[i].q &&
+//@         (l.trans[i].sym_or_rule&CheckMask != 0 ==> 0 <= int(l.trans[i].sym_or_rule&Mask) && int(l.trans[i].sym_or_rule&Mask) < len(l.G.ProductoinRules)) &&
+//@         (l.trans[i].sym_or_rule&CheckMask == 0 ==> 0 <= int(l.trans[i].sym_or_rule) && int(l.trans[i].sym_or_rule) < len(l.G.Symbols) && 0 <= l.trans[i].to)) &&
+//@     (forall k int :: has(l.DRSet, k) ==> 0 <= k && k < len(l.trans) && l.trans[k].sym_or_rule&CheckMask == 0)
+
+//@ func (*LALR1).fetchReduceTransistor
+//@ props C03 C02
+//@ results res
+//@ requires wfTrans(lalr)
+//@ ensures forall k int :: 0 <= k && k < len(res) ==> 0 <= res[k].Index && res[k].Index < len(lalr.trans) && res[k] == lalr.trans[res[k].Index] && res[k].sym_or_rule&CheckMask != 0
+//@ modifies nothing
+//@ loop 0: invariant forall k int :: 0 <= k && k < len(res) ==> 0 <= res[k].Index && res[k].Index < len(lalr.trans) && res[k] == lalr.trans[res[k].Index] && res[k].sym_or_rule&CheckMask != 0
+
+// lookback: (q, A -> w) lookback (p, A)  only if  p --w--> q          (DeRemer-Pennello)
+//@ func (*LALR1).CalcLookbacks
+//@ props C03 C02
+//@ results res
+//@ requires wfTrans(lalr)
+//@ ensures [C03,C02] forall n int :: 0 <= n && n < len(res) ==> lookbackOK(lalr, res[n].x, res[n].y)
+//@ modifies nothing
+//@ loop 0: invariant forall n int :: 0 <= n && n < len(res) ==> lookbackOK(lalr, res[n].x, res[n].y)
+//@ loop 1: invariant forall n int :: 0 <= n && n < len(res) ==> lookbackOK(lalr, res[n].x, res[n].y)
+//@ loop 1: order_assumed the relation list is used as a set of pairs by Digraph
+//@ def lookbackOK(l *LALR1, x int, y int) = 0 <= x && x < len(l.trans) && 0 <= y && y < len(l.trans) &&
+//@     l.trans[x].sym_or_rule&CheckMask != 0 && l.trans[y].sym_or_rule&CheckMask == 0 &&
+//@     l.trans[y].sym_or_rule == l.G.ProductoinRules[int(l.trans[x].sym_or_rule&Mask)].LeftPart.ID &&
+//@     spec_walk(l, l.trans[y].q, int(l.trans[x].sym_or_rule&Mask), len(l.G.ProductoinRules[int(l.trans[x].sym_or_rule&Mask)].RighPart)) == l.trans[x].q
